@@ -22,6 +22,9 @@ type application struct {
 	state   int32
 	stopped chan struct{}
 	reason  error
+	// the transition to 'stopping' and the reason it publishes are one step for
+	// whoever finishes the stop (the last member to leave, in its own goroutine)
+	reasonLock sync.Mutex
 
 	// Members can terminate while start() is still spawning the others - even before
 	// start() has put them into the group (the pid is known only when spawn returns).
@@ -202,12 +205,11 @@ func (a *application) terminate(pid gen.PID, reason error) {
 
 	switch a.mode {
 	case gen.ApplicationModePermanent:
-		if atomic.CompareAndSwapInt32(&a.state, int32(gen.ApplicationStateRunning), int32(gen.ApplicationStateStopping)) == false {
+		if a.markStopping(reason) == false {
 			// already in stopping (or already stopped by the member that left last)
 			break
 		}
 		a.node.Log().Info("application %s (%s) will be stopped due to termination of %s with reason: %s", a.spec.Name, a.mode, pid, reason)
-		a.reason = reason
 		a.group.Range(func(pid gen.PID, _ bool) bool {
 			a.node.SendExit(pid, gen.TerminateReasonShutdown)
 			return true
@@ -217,12 +219,11 @@ func (a *application) terminate(pid gen.PID, reason error) {
 			// do nothing
 			break
 		}
-		if atomic.CompareAndSwapInt32(&a.state, int32(gen.ApplicationStateRunning), int32(gen.ApplicationStateStopping)) == false {
+		if a.markStopping(reason) == false {
 			// already in stopping (or already stopped by the member that left last)
 			break
 		}
 		a.node.Log().Info("application %s (%s) will be stopped due to termination of %s with reason: %s", a.spec.Name, a.mode, pid, reason)
-		a.reason = reason
 		a.group.Range(func(pid gen.PID, _ bool) bool {
 			a.node.SendExit(pid, gen.TerminateReasonShutdown)
 			return true
@@ -236,9 +237,11 @@ func (a *application) terminate(pid gen.PID, reason error) {
 		return
 	}
 
+	a.reasonLock.Lock()
 	if a.reason == nil {
 		a.reason = gen.TerminateReasonNormal
 	}
+	a.reasonLock.Unlock()
 
 	old := atomic.SwapInt32(&a.state, int32(gen.ApplicationStateLoaded))
 	if old == int32(gen.ApplicationStateLoaded) {
@@ -271,6 +274,19 @@ func (a *application) terminate(pid gen.PID, reason error) {
 		return
 	}
 	a.registerAppRoute() // new state for the app
+}
+
+// markStopping moves a running application to 'stopping' and records the reason.
+// It reports whether this call made the transition.
+func (a *application) markStopping(reason error) bool {
+	a.reasonLock.Lock()
+	defer a.reasonLock.Unlock()
+	if atomic.CompareAndSwapInt32(&a.state,
+		int32(gen.ApplicationStateRunning), int32(gen.ApplicationStateStopping)) == false {
+		return false
+	}
+	a.reason = reason
+	return true
 }
 
 // members returns a snapshot of the group. Killing a sleeping process terminates it
